@@ -1801,7 +1801,7 @@ def c09_aux_history_groups(ctx):
         raise ToolError("GenAuxWalks_scripts failed: " + out[-1500:])
     groups = []
     for si, w in enumerate(scripted):
-        if w["sid"] not in (1, 2, 3, 4):
+        if w["sid"] not in (1, 2, 3, 4, 8):
             continue
         alg = ALGS[si % 6]
         groups.append(concretise_aux_walk("c09/auxhist/%d/%d" % (w["sid"], si), w["steps"], alg, [(4, 5)] if si % 2 else [(2, 5), (4, 2)], si, mem_a=True))
